@@ -102,7 +102,7 @@ theorem lay35 (st : Stages fs lines a) : PW LayRel st.ss3 a.stmts := by
   have h34 : PW LayRel st.ss3 st.ss4 :=
     (assignAddrs_pw st.haddr).mono (by rintro s s' ⟨_, rfl⟩; exact ⟨rfl, rfl, rfl⟩)
   have h45 : PW LayRel st.ss4 a.stmts :=
-    (fixAll_pw st.hfix).mono (by rintro s s' ⟨_, rfl⟩; exact ⟨rfl, rfl, rfl⟩)
+    (fixAllL_pw st.hfix).mono (by rintro s s' ⟨_, rfl⟩; exact ⟨rfl, rfl, rfl⟩)
   exact h34.trans h45 (fun _ _ _ => LayRel.trans)
 
 /-- **an ORG comes before the first label and the first byte**: in an accepted program, a statement that comes before
@@ -514,15 +514,18 @@ theorem choices_size_pos (st : Stages fs lines a) {i : Nat} {s : Stmt} (hs : a.s
   obtain ⟨_, h4⟩ := tr.addr
   obtain ⟨_, hf⟩ := fixOne_same tr.hfix
   obtain ⟨_, hw⟩ := fitWidth_same tr.hfit
+  obtain ⟨_, hl⟩ := evalList1_same tr.hlist
+  have c0 := congrArg (fun x : Stmt => x.pkg.choices) hl
   have c1 := congrArg (fun x : Stmt => x.pkg.choices) hw
   have c2 := congrArg (fun x : Stmt => x.pkg.choices) hf
   have c3 := congrArg (fun x : Stmt => x.pkg.choices) h4
   have c4 := congrArg (fun x : Stmt => x.pkg.choices) h3
-  have hch : s.pkg.choices = tr.p.choices := c1.trans (c2.trans (c3.trans c4))
+  have hch : s.pkg.choices = tr.p.choices := c0.trans (c1.trans (c2.trans (c3.trans c4)))
+  have z0 := congrArg (fun x : Stmt => x.pkg.size) hl
   have z1 := congrArg (fun x : Stmt => x.pkg.size) hw
   have z2 := congrArg (fun x : Stmt => x.pkg.size) hf
   have z3 := congrArg (fun x : Stmt => x.pkg.size) h4
-  have hsz : s.pkg.size = tr.s3.pkg.size := z1.trans (z2.trans z3)
+  have hsz : s.pkg.size = tr.s3.pkg.size := z0.trans (z1.trans (z2.trans z3))
   have hnf : (mkTranslated tr.s0 tr.o tr.p).fixedSize = false := by
     show tr.p.choices.isEmpty = false
     rw [← hch]
